@@ -4,4 +4,5 @@ package main
 func genAll(src, out string) {
 	genWalker(src, out)
 	genHazards(src, out)
+	genLocks(src, out)
 }
